@@ -50,6 +50,9 @@ THEOREMS = [
     "HedVerif.C09.gather_new_valuefree",
     "HedVerif.C09.gather_mismatch_reported",
     "HedVerif.C09.gather_overwrite_counterexample",
+    "HedVerif.C09.merge_first_wins",
+    "HedVerif.C09.merge_duplicate_reported",
+    "HedVerif.C09.merge_example",
     "HedVerif.C09.sort_perm",
     "HedVerif.C09.sortN_idem",
     "HedVerif.C09.sortG_idem",
@@ -771,6 +774,101 @@ def check_gather(ctx, env, def_strings, cells):
         ctx.violation("gather-raised", case, f"{type(e).__name__}: {e}")
 
 
+# ---- dictionaries built separately and merged through the dict path: the first definition of a name wins
+
+MERGE_VARIANTS = {   # per name: definitions that differ in content, case of the name, takes-value flag
+    "A": ["(Definition/A, (Red, Blue))", "(Definition/a, (Green))", "(Definition/A/#, (Label/#, Square))",
+          "(Definition/A, (Item, (Circle)))"],
+    "B": ["(Definition/B, (Green))", "(Definition/B/#, (Speed/# mph))", "(Definition/b, (Blue, Red))"],
+    "Spd": ["(Definition/Spd/#, (Speed/# mph))", "(Definition/SPD/#, (Label/#))", "(Definition/Spd, (Red))"],
+    "E": ["(Definition/E)", "(Definition/e, (Square))"],
+}
+
+
+def gen_merge(rng):
+    """two or three dictionaries (lists of definition strings), each without internal clash, clashing with each other"""
+    n = rng.choice([2, 2, 3])
+    dicts = []
+    for _ in range(n):
+        names = rng.sample(list(MERGE_VARIANTS), rng.randint(1, 4))
+        dicts.append([rng.choice(MERGE_VARIANTS[nm]) for nm in names])
+    return dicts
+
+
+def check_merge(ctx, env, dicts, model):
+    from hed import HedString
+    from hed.models import DefinitionDict
+    from hed.validator import HedValidator
+    from hed.validator.def_validator import DefValidator
+    case = {"merge": dicts}
+    # reference: every dictionary on its own (string rules), then first wins, one report per clash
+    merged, clashes = {}, 0
+    for d in dicts:
+        refd, _ = ref_accept(d, env.takes_value_tag, env.bad_prop_tag)
+        for k, v in refd.items():
+            if k in merged:
+                clashes += 1
+            else:
+                merged[k] = v
+    ctx.case(("m", json.dumps(dicts)), nontrivial=clashes >= 1, sample=case if clashes >= 2 else None)
+    ctx.count("merge-clashes", clashes)
+
+    def entries(dd):
+        return [[k, e.name, bool(e.takes_value), None if e.contents is None or str(e.contents) == "()" else str(e.contents)]
+                for k, e in dd.defs.items()]
+    try:
+        with watchdog(30):
+            built = [DefinitionDict(list(d), env.schema) for d in dicts]
+            m1 = DefinitionDict(list(built))
+            m2 = DefValidator(list(built))
+            m3 = DefinitionDict()
+            m3.add_definitions(built[0])
+            m3.add_definitions(dict(built[1].defs))
+            if len(built) > 2:
+                m3.add_definitions(built[2:])
+            m4 = HedValidator(env.schema, def_dicts=list(built))._def_validator
+            routes = {"DefinitionDict([...])": m1, "DefValidator([...])": m2, "add_definitions(dict)": m3,
+                      "HedValidator(def_dicts=[...])": m4}
+            for route, m in routes.items():
+                got = entries(m)
+                if model is not None and route == "DefinitionDict([...])" and \
+                        (model["defs"] != got or model["issues"] != len(m.issues)):
+                    ctx.disagree("Defs.mergeDicts = DefinitionDict([d1, d2, ...])", case, model,
+                                 {"defs": got, "issues": len(m.issues)})
+                if len(m.issues) != clashes:
+                    ctx.violation("duplicate-across-dictionaries-reported-once-per-clash", case,
+                                  {"route": route, "reported": len(m.issues), "clashes": clashes})
+                for k, name, takes, content in got:
+                    want = merged.get(k)
+                    if want is None or want[0] != name or want[1] != takes or \
+                            (None if not want[2] else canon([want[2]])) != (None if content is None else canon(parse(content))):
+                        ctx.violation("merged-dictionary-keeps-the-first-definition", case,
+                                      {"route": route, "name": k, "stored": [name, takes, content],
+                                       "first": None if want is None else [want[0], want[1], render(want[2] or [])]})
+                if sorted(merged) != sorted(g[0] for g in got):
+                    ctx.violation("merged-dictionary-keeps-the-first-definition", case,
+                                  {"route": route, "names": sorted(g[0] for g in got), "expected": sorted(merged)})
+                # expansion and Def-expand validation use the first definition
+                for k, (name, takes, content) in merged.items():
+                    use = f"Def/{name}" + ("/3" if takes else "")
+                    hs = HedString(f"({use}, Item)", env.schema, m)
+                    out = str(hs.expand_defs())
+                    want_tree = ref_expand(parse(f"({use}, Item)"), merged)
+                    if canon(parse(out)) != canon(want_tree):
+                        ctx.violation("expansion-after-merge-uses-the-first-definition", case,
+                                      {"route": route, "hed": use, "got": out, "expected": render(want_tree)})
+                    written = render(ref_expand(parse(use), merged))
+                    v = HedValidator(env.schema, def_dicts=list(built)) if route.startswith("HedValidator") else \
+                        HedValidator(env.schema, def_dicts=m)
+                    kinds = [i["_kind"] for i in v._def_validator.validate_def_tags(HedString(written, env.schema, m), v)]
+                    if kinds:
+                        ctx.violation("def-expand-of-the-first-definition-accepted-after-merge", case,
+                                      {"route": route, "hed": written, "kinds": kinds})
+                    ctx.count("merge-uses-checked")
+    except Exception as e:    # noqa
+        ctx.violation("dictionary-merge-raised", case, f"{type(e).__name__}: {e}")
+
+
 # ---- gathering (value-free definitions): DefExpandGatherer against `Defs.gatherAll`, and its own reference
 
 GATHER_KNOWN = ["(Definition/A, (Red, Blue))", "(Definition/B, (Green))",
@@ -1093,6 +1191,30 @@ def run(ctx):
         with watchdog(30):
             check_gather_model(ctx, env, k, cells, a)
     ctx.check_time()
+    # dictionaries merged through the dict path (fixed clashes first, then generated); the model runs the
+    # expansion with the merged dictionary as well
+    mwork = [[["(Definition/A, (Red, Blue))"], ["(Definition/a, (Green))"]],
+             [["(Definition/Spd/#, (Speed/# mph))", "(Definition/B, (Green))"], ["(Definition/B/#, (Label/#))", "(Definition/Spd, (Red))"]],
+             [["(Definition/A, (Red, Blue))"], ["(Definition/B, (Green))"], ["(Definition/A/#, (Label/#))", "(Definition/b, (Blue))"]]]
+    mwork += [gen_merge(rng) for _ in range(60 if quick else 600)]
+    mans = ctx.model.batch([{"op": "c09.merge", "dicts": [[env.def_tree(s) for s in d] for d in ds]} for ds in mwork])
+    for ds, a in zip(mwork, mans):
+        check_merge(ctx, env, ds, a)
+    runs = []
+    for ds in mwork[:40]:
+        hed = "Def/A, (Def/a/3, Def/B), (Def/B/3, Def/Spd/3, Def/Spd), Def/E"
+        from hed import HedString
+        from hed.models import DefinitionDict
+        m = DefinitionDict([DefinitionDict(list(d), env.schema) for d in ds])
+        hs = HedString(hed, env.schema, m)
+        tree = env.tree_json(hs)
+        runs.append((ds, tree, str(hs.expand_defs())))
+    rans = ctx.model.batch([{"op": "c09.run", "dicts": [[env.def_tree(s) for s in d] for d in ds], "defs": [],
+                             "kids": tree, "ops": ["expand"]} for ds, tree, _ in runs])
+    for (ds, tree, out), a in zip(runs, rans):
+        if a["steps"] != [{"s": out}]:
+            ctx.disagree("Defs.runG with mergeDicts = expand_defs with DefinitionDict([d1, d2, ...])", {"merge": ds}, a["steps"], out)
+    ctx.check_time()
     # (c) frames: every spelling of the Def / Def-expand name, alone, all together, and in random subsets;
     # the same cells as one-object histories tie the string level to the model
     for c in FRAME_SPELLINGS:
@@ -1128,7 +1250,10 @@ def replay(ctx, rec):
     if not case:
         print("nothing to replay (obligation-only record):", rec.get("broken_obligations"))
         return
-    if "accept" in case:
+    if "merge" in case:
+        a = ctx.model.batch([{"op": "c09.merge", "dicts": [[env.def_tree(s) for s in d] for d in case["merge"]]}])[0]
+        check_merge(ctx, env, case["merge"], a)
+    elif "accept" in case:
         a = ctx.model.batch([{"op": "c09.accept", "strings": [env.def_tree(s) for s in case["accept"]]}])[0]
         check_accept(ctx, env, case["accept"], a)
     elif "hed" in case:
